@@ -36,8 +36,8 @@ use std::rc::Rc;
 
 pub const META: Meta = Meta {
     level: "fault_enumeration",
-    rule: "mitm: honest XX handshake A<->B (identity key types ed25519/ed25519 with every byte x 8 one-bit flips; secp256k1/ecdsa, ecdsa/rsa, rsa/secp256k1 with masks {01,80} quick / 8 bits thorough) for each of the 3 messages: every single-byte flip, every truncation, 1-byte extension, drop, duplicate, reflect, replay from a previous session; thorough: all position pairs xor 01 of each message (ed25519). hostile: snow-built endpoint E (4 key types) against a real responder and a real initiator, announcing identity_key in {E, V (4 key types), empty, garbage} x identity_sig in {E over E-static, V's recorded signature over V-static, empty, garbage, E over E-static without the domain prefix, E over another static key, every 1-bit flip (ed25519) of the valid signature}. prologue: all ordered pairs over {empty, 01, 01 02, 'x'}; for lengths {1,31,32,33,63,64,65,88,128,255,256,1000}: an equal pair (control) and pairs differing only in the last, first or middle byte or only in length (strict prefix by one byte), in either order. Non-trivial = every case except the untouched honest handshakes.",
-    explanation: "Fault enumeration (E3) against the real upgrade_inbound/upgrade_outbound futures. Oracle: a side returning Ok(peer) reports the PeerId of the party it completed the key exchange with (A, B or E), never V or a third id; the hostile endpoint is accepted only with its own identity key and a signature by that key over its static DH key with the domain prefix; different prologues make both sides fail; untouched handshakes succeed with the right ids; no panic, no hang after EOF.",
+    rule: "mitm: honest XX handshake A<->B (identity key types ed25519/ed25519 with every byte x 8 one-bit flips; secp256k1/ecdsa, ecdsa/rsa, rsa/secp256k1 with masks {01,80} quick / 8 bits thorough) for each of the 3 messages: every single-byte flip, every truncation, 1-byte extension, drop, duplicate, reflect, replay from a previous session; thorough: all position pairs xor 01 of each message (ed25519). hostile: snow-built endpoint E (4 key types) against a real responder and a real initiator, announcing identity_key in {E, V (4 key types), empty, garbage} x identity_sig in {E over E-static, V's recorded signature over V-static, empty, garbage, E over E-static without the domain prefix, E over another static key, every 1-bit flip (ed25519) of the valid signature}. replay-only: an honest session (handshake + one transport frame each way) is recorded, then every prefix of the recorded messages of one side (incl. the transport frame) is played back to a fresh responder / initiator built from the same Config, in the same execution without resetting entropy, for 4 key-type pairs. prologue: all ordered pairs over {empty, 01, 01 02, 'x'}; for lengths {1,31,32,33,63,64,65,88,128,255,256,1000}: an equal pair (control) and pairs differing only in the last, first or middle byte or only in length (strict prefix by one byte), in either order. Non-trivial = every case except the untouched honest handshakes.",
+    explanation: "Fault enumeration (E3) against the real upgrade_inbound/upgrade_outbound futures. Oracle: a side returning Ok(peer) reports the PeerId of the party it completed the key exchange with (A, B or E), never V or a third id; the hostile endpoint is accepted only with its own identity key and a signature by that key over its static DH key with the domain prefix; different prologues make both sides fail; untouched handshakes succeed with the right ids; no replayed handshake completes; no panic, no hang after EOF.",
     assumptions: &["snow, x25519-dalek, ring trusted; manipulations are enumerated, not computational", "the adversary cannot use a static DH public key whose secret it does not hold (it could not complete the exchange)", "constant entropy seed: static DH keys identical in all cases, runs and replays; ephemeral keys vary"],
 };
 
@@ -436,11 +436,117 @@ fn hostile_case(c: &Value) -> Result<String, String> {
 
 // ---------------------------------------------------------------------------------------------
 
+// ---------------------------------------------------------------------------------------------
+// adversary-only replay: a recorded honest session is played back to a fresh endpoint created from
+// the same Config (same static DH key, as transports do), with nobody else on the wire. Recording
+// and replay happen in the SAME execution and the entropy stream is not reset in between, so the
+// code under test draws its ephemeral keys for the second handshake from wherever it normally does.
+
+struct Recorded {
+    /// msg1, msg3 and one transport frame, as sent by the initiator
+    from_init: Vec<Vec<u8>>,
+    /// msg2 and one transport frame, as sent by the responder
+    from_resp: Vec<Vec<u8>>,
+}
+
+fn record_session(ca: libp2p_noise::Config, cb: libp2p_noise::Config) -> Result<Recorded, String> {
+    use futures::{AsyncReadExt, AsyncWriteExt};
+    let (link, a_end, b_end) = Link::new();
+    let ok: Rc<RefCell<Vec<String>>> = Rc::new(RefCell::new(Vec::new()));
+    let mut tasks = Tasks::new(false);
+    for (init, io, c) in [(true, a_end, ca), (false, b_end, cb)] {
+        let ok = ok.clone();
+        tasks.spawn_local(if init { "A" } else { "B" }, async move {
+            let r = if init { c.upgrade_outbound(io, "/noise").await } else { c.upgrade_inbound(io, "/noise").await };
+            let Ok((_, mut out)) = r else { return };
+            let msg: &[u8] = if init { b"secret-from-initiator" } else { b"secret-from-responder" };
+            if out.write_all(msg).await.is_err() || out.flush().await.is_err() {
+                return;
+            }
+            let mut buf = [0u8; 21];
+            if out.read_exact(&mut buf).await.is_ok() {
+                ok.borrow_mut().push(String::from_utf8_lossy(&buf).into_owned());
+            }
+        });
+    }
+    let (mut fa, mut fb) = (Vec::new(), Vec::new());
+    let (mut ba, mut bb) = (Vec::new(), Vec::new());
+    for _ in 0..16 {
+        tasks.run(100_000);
+        let (x, y) = (link.from_a(), link.from_b());
+        if x.is_empty() && y.is_empty() {
+            break;
+        }
+        link.to_b(&x);
+        link.to_a(&y);
+        ba.extend(x);
+        bb.extend(y);
+        fa.extend(take_frames(&mut ba));
+        fb.extend(take_frames(&mut bb));
+    }
+    if ok.borrow().len() != 2 || fa.len() != 3 || fb.len() != 2 {
+        return Err(format!("noise-honest-handshake-fails :: recording session: {} sides exchanged data, {} + {} frames", ok.borrow().len(), fa.len(), fb.len()));
+    }
+    Ok(Recorded { from_init: fa, from_resp: fb })
+}
+
+fn replay_only_case(c: &Value) -> Result<String, String> {
+    use futures::AsyncReadExt;
+    let (ka, kb) = (c["ka"].as_u64().unwrap_or(0) as usize, c["kb"].as_u64().unwrap_or(0) as usize);
+    let victim_is_responder = c["victim"].as_str() != Some("initiator");
+    let n = c["n"].as_u64().unwrap_or(1) as usize;
+    let (ca, cb) = (cfg(ka, 1, &[])?, cfg(kb, 2, &[])?);
+    let rec = record_session(ca.clone(), cb.clone())?;
+    let script: Vec<Vec<u8>> = if victim_is_responder { rec.from_init } else { rec.from_resp };
+    let script = &script[..n.min(script.len())];
+    let (v_end, h_end) = pipe::pair(PipeCfg::default());
+    let h = h_end.handle();
+    let res: Rc<RefCell<Res>> = Rc::new(RefCell::new(None));
+    let read: Rc<RefCell<Option<Result<Vec<u8>, String>>>> = Rc::new(RefCell::new(None));
+    let mut tasks = Tasks::new(false);
+    {
+        let (res, read) = (res.clone(), read.clone());
+        let vc = if victim_is_responder { cb } else { ca };
+        tasks.spawn_local("victim", async move {
+            let r = if victim_is_responder { vc.upgrade_inbound(v_end, "/noise").await } else { vc.upgrade_outbound(v_end, "/noise").await };
+            match r {
+                Ok((p, mut out)) => {
+                    *res.borrow_mut() = Some(Ok(p));
+                    let mut buf = [0u8; 64];
+                    let r = out.read(&mut buf).await;
+                    *read.borrow_mut() = Some(r.map(|n| buf[..n].to_vec()).map_err(|e| e.to_string()));
+                }
+                Err(e) => *res.borrow_mut() = Some(Err(e.to_string())),
+            }
+        });
+    }
+    // the adversary plays the recorded messages one after the other, then ends the stream
+    for m in script {
+        mc::catch(|| tasks.run(100_000)).map_err(|p| format!("noise-handshake-panic :: {p} at {:?}", mc::shim::last_panic_loc()))?;
+        h.inject(false, m);
+    }
+    mc::catch(|| tasks.run(100_000)).map_err(|p| format!("noise-handshake-panic :: {p} at {:?}", mc::shim::last_panic_loc()))?;
+    h.close(false);
+    mc::catch(|| tasks.run(100_000)).map_err(|p| format!("noise-handshake-panic :: {p} at {:?}", mc::shim::last_panic_loc()))?;
+    let what = format!("{}/{} victim={} after {} replayed message(s)", keys::KINDS[ka], keys::KINDS[kb], if victim_is_responder { "responder" } else { "initiator" }, script.len());
+    let r = res.borrow().clone();
+    drop(h_end);
+    match r {
+        None => Err(format!("noise-handshake-hangs :: replay: {what}")),
+        Some(Ok(p)) => {
+            let delivered = matches!(&*read.borrow(), Some(Ok(b)) if !b.is_empty());
+            Err(format!("noise-replayed-handshake-completes :: {what}: the victim reports {p} although only recorded bytes of an earlier session were played back{}", if delivered { " and delivered the replayed transport frame to the application" } else { "" }))
+        }
+        Some(Err(_)) => Ok("replay-rejected".into()),
+    }
+}
+
 fn run_case_inner(c: &Value) -> Result<String, String> {
     match c["kind"].as_str() {
         Some("mitm") => mitm_case(c),
         Some("prologue") => prologue_case(c),
         Some("hostile") => hostile_case(c),
+        Some("replayonly") => replay_only_case(c),
         _ => Err("bad replay case".into()),
     }
 }
@@ -546,6 +652,14 @@ pub fn run(ctx: &Ctx) -> Outcome {
                 case(&mut out, false, json!({"kind":"prologue","ka":0,"kb":0,"pa":{"len":l,"var":var},"pb":{"len":l,"var":"base"}}));
             }
         }
+        // ---- adversary-only replay of a recorded session (every prefix of the recorded messages)
+        for (ka, kb) in [(0usize, 0usize), (1, 2), (2, 3), (3, 1)] {
+            for (victim, max) in [("responder", 3usize), ("initiator", 2)] {
+                for n in 1..=max {
+                    case(&mut out, false, json!({"kind":"replayonly","ka":ka,"kb":kb,"victim":victim,"n":n}));
+                }
+            }
+        }
         // ---- hostile endpoint
         for victim in ["responder", "initiator"] {
             for ke in 0..4usize {
@@ -577,7 +691,7 @@ pub fn run(ctx: &Ctx) -> Outcome {
     });
     out.sample(json!({"kind":"hostile","ke":0,"kv":1,"victim":"responder","id":"V","sig":"V_recorded","note":"E completes the exchange with its own static key but announces V's key and V's (valid, recorded) signature over V's static key"}));
     if out.violations.is_empty() {
-        for (k, min) in [("mitm_untouched_A-ok_B-ok", 4u64), ("mitm_A-err_B-err", 1), ("mitm_A-ok_B-err", 1), ("prologue_prologue-equal-ok", 20), ("prologue_prologue-different-fails", 130), ("hostile_hostile-legit-accepted", 32), ("hostile_hostile-rejected", 100)] {
+        for (k, min) in [("mitm_untouched_A-ok_B-ok", 4u64), ("mitm_A-err_B-err", 1), ("mitm_A-ok_B-err", 1), ("prologue_prologue-equal-ok", 20), ("prologue_prologue-different-fails", 130), ("replayonly_replay-rejected", 20), ("hostile_hostile-legit-accepted", 32), ("hostile_hostile-rejected", 100)] {
             if out.get(k) < min {
                 out.machinery(format!("vacuity: counter {k} = {} (< {min})", out.get(k)));
             }
